@@ -28,7 +28,8 @@ PROPS = {
                  dict(name="rolloutbg", quick=800, thorough=40000, shard=400, trivial_tags=["no-change", "status-not-written"]),
                  dict(name="brexec", quick=600, thorough=30000, shard=400, trivial_tags=["status-unchanged"]),
                  dict(name="rollouttr", quick=800, thorough=40000, shard=400, trivial_tags=["no-network-write"]),
-                 dict(name="events", quick=800, thorough=30000, shard=400, trivial_tags=[])],
+                 dict(name="events", quick=800, thorough=30000, shard=400, trivial_tags=[]),
+                 dict(name="trctl", quick=600, thorough=20000, shard=400, trivial_tags=[])],
         rule="as C01 (arith engine): the readiness target DesiredUpdatedReplicas returned by the real CalculateBatchContext is compared with what the knob "
              "left by the real UpgradeBatch admits; gateway / ingress engines: every provider operation is repeated once (fixed-point probe); rolloutsm / rolloutbg / "
              "brexec engines (see C02, C11): one real Reconcile per generated state; a reconcile that changed nothing, reported no error and asked for no requeue must be "
@@ -78,7 +79,7 @@ PROPS = {
              "run; (lua) 3-7 workers running fresh provider-like scripts through the real luamanager.RunLuaScript at the same moment, outputs compared with solo runs; "
              "non-trivial = every case; distinct = distinct input JSON",
         trusted=["Go race detector (dynamic: it sees the interleavings that occur)", "controller-runtime fake client is goroutine-safe",
-                 "hooks VerifNewReconciler, grace.VerifAge, batchrelease.VerifWorkloadEventHandler; the harness replaces the exported package variable expectations.ResourceExpectations by a fresh store between runs"],
+                 "hooks VerifNewReconciler, grace.VerifAge, batchrelease.VerifWorkloadEventHandler, rollout.VerifSetRuntimeController (a scripted controller.Controller stands for the manager's); the harness replaces the exported package variable expectations.ResourceExpectations by a fresh store between runs"],
         assumptions=["Rollouts have distinct UIDs, their stable Services are distinct objects, canary Service namespace/name pairs are distinct (otherwise they share keys by design)",
                      "expectation timeouts (5 min) are not modelled: they only ever release the key they belong to",
                      "namespaces contain no '/' (Kubernetes names never do)"],
@@ -281,7 +282,8 @@ PROPS = {
         engines=[dict(name="rolloutsm", quick=1200, thorough=60000, shard=400, trivial_tags=["no-change", "status-not-written"]),
                  dict(name="brexec", quick=600, thorough=30000, shard=400, trivial_tags=["status-unchanged"]),
                  dict(name="trctl", quick=800, thorough=30000, shard=400, trivial_tags=[]),
-                 dict(name="trfin", quick=400, thorough=10000, shard=400, trivial_tags=[])],
+                 dict(name="trfin", quick=400, thorough=10000, shard=400, trivial_tags=[]),
+                 dict(name="ctlplane", quick=800, thorough=30000, shard=400, trivial_tags=[])],
         rule="rolloutsm and brexec engines with deleting objects in every phase, with and without finalizer; trctl engine: TrafficRouting objects in every persisted phase, live or "
              "deleting, with / without the controller's finalizer and finalizers of progressing Rollouts, network states (stable Service present / missing, canary Ingress absent / "
              "this / another strategy), pending or elapsed grace expectations, zero grace, and an injected failure of the gateway read; one real TrafficRoutingReconciler.Reconcile",
@@ -321,7 +323,7 @@ PROPS = {
     ),
 }
 
-HOOK_COMMITS = ["bf5febd", "cd696c4", "9ed478c", "e2da513", "a1cf379", "74a10c2"]
+HOOK_COMMITS = ["bf5febd", "cd696c4", "9ed478c", "e2da513", "a1cf379", "74a10c2", "07fc074"]
 NOT_APPLICABLE = []
 
 MANIFEST_TEXT = {
@@ -541,6 +543,16 @@ _ADD = {
     "C05": " The blue-green control planes (Deployment, CloneSet) and the HPA have their own model (Model/HandBack.v, tied by the handback engine through the real "
            "control-plane wrappers): Initialize, any UpgradeBatch calls and Finalize, with any one Patch failing and phases retried, hand the workload back as "
            "configured (theorem C05_bluegreen_workload_handed_back_as_configured).",
+    "C07": " The TrafficRouting controller (trctl engine) has its own theorem and clause: a reconcile that leaves an object Finalizing without an error has asked "
+           "for a requeue -- nothing else would wake it.",
+    "C11": " A canary-style Finalize with the WaitResume policy succeeds only on a promoted Deployment, on every attempt (clause on the ctlplane engine for theorem "
+           "C11_canary_deployment_finalize_done_means_promoted).",
+    "C18": " The ctlplane engine also runs Finalize of the canary-style control plane when the stable Deployment is already gone: success still means that no canary "
+           "Deployment keeps the batch-release finalizer.",
+    "C19": " Two more kinds of coupling are covered since round 7: the registry of dynamically watched workload types (model watch_step, theorems "
+           "C19_workload_type_registered_only_by_a_successful_watch and C19_failed_watch_changes_nothing, the real Reconcile against a scripted controller whose "
+           "Watch calls fail) and generated object names (theorem C19_canary_service_names_tell_rollouts_apart; Rollouts of ONE namespace with long, similar stable "
+           "Service names drive the real traffic manager interleaved and are compared with their solo runs).",
     "C17": " A fifth, tested, clause covers the last sentence: at full partition with every pod available a sync of a not yet converged Deployment changes some "
            "ReplicaSet size.",
 }
